@@ -38,9 +38,10 @@ type TaskRunner struct {
 
 	ctx         context.Context
 	cancelFunc  context.CancelFunc
-	cancelMutex sync.RWMutex
+	cancelMutex sync.Mutex
 	canceling   bool
-	doneCh      chan struct{}
+	running     int
+	idle        *sync.Cond
 
 	compiler *TaskCompiler
 
@@ -61,8 +62,8 @@ func NewTaskRunner(opts ...Opts) (*TaskRunner, error) {
 		Stderr:       os.Stderr,
 		variables:    variables.NewVariables(),
 		env:          variables.NewVariables(),
-		doneCh:       make(chan struct{}, 1),
 	}
+	r.idle = sync.NewCond(&r.cancelMutex)
 
 	r.ctx, r.cancelFunc = context.WithCancel(context.Background())
 
@@ -92,12 +93,16 @@ func (r *TaskRunner) SetVariables(vars variables.Container) *TaskRunner {
 // Run run provided task.
 // TaskRunner first compiles task into linked list of Jobs, then passes those jobs to Executor
 func (r *TaskRunner) Run(t *task.Task) error {
+	r.cancelMutex.Lock()
+	r.running++
+	r.cancelMutex.Unlock()
 	defer func() {
-		r.cancelMutex.RLock()
-		if r.canceling {
-			close(r.doneCh)
+		r.cancelMutex.Lock()
+		r.running--
+		if r.running == 0 {
+			r.idle.Broadcast()
 		}
-		r.cancelMutex.RUnlock()
+		r.cancelMutex.Unlock()
 	}()
 
 	if err := r.ctx.Err(); err != nil {
@@ -187,8 +192,10 @@ func (r *TaskRunner) Cancel() {
 		defer logrus.Debug("runner has been cancelled")
 		r.cancelFunc()
 	}
+	for r.running > 0 {
+		r.idle.Wait()
+	}
 	r.cancelMutex.Unlock()
-	<-r.doneCh
 }
 
 // Finish makes cleanup tasks over contexts
